@@ -67,6 +67,8 @@ impl Server {
         let dir = root.join("l1/l2/l3/l4/l5");
         std::fs::create_dir_all(&dir).expect("server dir");
         for attempt in 0..5 {
+            // a failed attempt drops its Server value, which removes the scratch root
+            std::fs::create_dir_all(&dir).expect("server dir");
             let port = free_port();
             let mut cfg = format!("bind: 127.0.0.1:{port}\naddress: http://127.0.0.1:{port}\nadmin: admin\ndata_dir: agdb_server_data\nlog_level: OFF\n");
             if let Some(t) = token_expiry_seconds {
